@@ -232,6 +232,18 @@ def run_mutants(pid):
     from .pipeline import REPO
     mdir = os.path.join(VERIF, "mutants", pid)
     patches = sorted(glob.glob(os.path.join(mdir, "*.patch")))
+    # confirmed seeded changes (seeded/<id>/patch.diff) that this property's check is recorded to catch
+    seeded = {}
+    for mf in sorted(glob.glob(os.path.join(VERIF, "seeded", "*", "meta.json"))):
+        try:
+            meta = json.load(open(mf))
+        except ValueError:
+            continue
+        for cb in meta.get("caught_by", []):
+            if cb.split(".")[0] == pid:
+                pf = os.path.join(os.path.dirname(mf), "patch.diff")
+                seeded.setdefault(pf, ("seeded-" + os.path.basename(os.path.dirname(mf)), cb.split(".")[1], meta.get("summary", "")[:120]))
+    patches += sorted(seeded)
     results = []
     if not patches:
         return results
@@ -245,6 +257,8 @@ def run_mutants(pid):
                 expect = line.split(":", 1)[1].strip()
             elif line.startswith("# what:"):
                 what = line.split(":", 1)[1].strip()
+        if pf in seeded:
+            name, expect, what = seeded[pf]
         d = os.path.join(base, name)
         os.makedirs(os.path.join(d, "repo"))
         shutil.copytree(os.path.join(REPO, "src"), os.path.join(d, "repo", "src"),
@@ -266,6 +280,11 @@ def run_mutants(pid):
         rules = sorted({h[0] for h in hits})
         detected = r.returncode == 1 and (expect in rules if expect else bool(rules))
         shutil.rmtree(d, ignore_errors=True)
+        if expect == "pass":
+            # a behaviour-preserving rewrite: the check must stay quiet (exit 2 = shape not handled, tolerated but shown)
+            st = "quiet" if r.returncode == 0 else "FALSE-ALARM" if r.returncode == 1 else "undecided"
+            return {"mutant": name, "what": what, "expect": expect, "status": st, "exit": r.returncode, "rules_fired": rules,
+                    "first_report": (hits[0][1][:200] if hits else r.stdout[-200:] if r.returncode else "")}
         return {"mutant": name, "what": what, "expect": expect, "status": "detected" if detected else "MISSED",
                 "exit": r.returncode, "rules_fired": rules, "first_report": (hits[0][1][:200] if hits else r.stdout[-200:])}
 
@@ -294,14 +313,17 @@ def run_check(pid, rule_fn, argv):
                         "property) is applied to a scratch copy of the current tree; the quick check must exit 1 naming the expected rule" % pid,
                 "mutants": res,
                 "detected": sum(1 for r in res if r["status"] == "detected"),
-                "applicable": sum(1 for r in res if r["status"] != "does-not-apply"),
+                "applicable": sum(1 for r in res if r["status"] != "does-not-apply" and r["expect"] != "pass"),
+                "benign_rule": "patches marked '# expect: pass' are behaviour-preserving rewrites of the anchored code: the check must not report a violation on them",
+                "benign_quiet": sum(1 for r in res if r["status"] == "quiet"),
+                "benign_total": sum(1 for r in res if r["expect"] == "pass"),
             }
-            missed = [r for r in res if r["status"] == "MISSED"]
+            missed = [r for r in res if r["status"] in ("MISSED", "FALSE-ALARM")]
             for r in res:
                 print("  self-validation: %-22s %-14s expect %s fired %s" % (r["mutant"], r["status"], r["expect"], r.get("rules_fired")))
         rc = chk.finish()
         if missed and rc == 0:
-            print("ANALYSIS-BROKEN property=%s: checker regression, stored mutant(s) not detected: %s" % (pid, [r["mutant"] for r in missed]))
+            print("ANALYSIS-BROKEN property=%s: checker regression, stored mutant(s) not detected / benign rewrite(s) reported: %s" % (pid, [r["mutant"] for r in missed]))
             rc = 2
     except BrokenPipeError:
         rc = 2
